@@ -6,5 +6,5 @@ CONSTANTS
   EmitOn = TRUE
 INIT Init
 NEXT Next
-INVARIANTS TerminalIsClassified ErrorHasCause DoneIsClean ScopesWellFormed HeapWellFormed CallFramesConsistent EmitInv
-PROPERTIES NoEffectAfterError Monotone StoreLocal OutputAppendOnly
+INVARIANTS TerminalIsClassified ErrorHasCause DoneIsClean ScopesWellFormed HeapWellFormed CallFramesConsistent LoopsEnd EmitInv
+PROPERTIES NoEffectAfterError Monotone StoreLocal OutputAppendOnly ReturnUnwindsToCall
